@@ -217,6 +217,7 @@ struct FileCtx<'a> {
     degraded: Vec<String>,
     extra_eff: HashMap<String, String>,
     fname: String,
+    ro_violations: Vec<String>,
 }
 
 impl<'a> FileCtx<'a> {
@@ -305,10 +306,16 @@ impl<'a, 'b> BodyV<'a, 'b> {
                 let txt = if has_args && !trailing_comma { format!(", {arg}") } else { arg };
                 self.fc.edit_ord(a, a, txt, "R3.call", 5);
             }
-            None => self.fc.errors.push(format!(
-                "read-only unit {} calls mutating `{}`",
-                self.outer_name, what
-            )),
+            None => {
+                // a unit whose contract says "read-only" calls something that mutates the file
+                // system: that is itself the violation (C15); the call site gets a ghost world
+                // out of thin air so that the rest of the file can still be verified
+                self.fc.ro_violations.push(format!("{}|{}", self.unit.as_ref().map(|u| u.id.clone()).unwrap_or_default(), what));
+                let (a, _) = br(paren_close);
+                let arg = "crate::shims::ro_violation_world()";
+                let txt = if has_args && !trailing_comma { format!(", {arg}") } else { arg.to_string() };
+                self.fc.edit_ord(a, a, txt, "R3.ro_violation", 5);
+            }
         }
     }
 
@@ -432,7 +439,20 @@ impl<'a, 'b> BodyV<'a, 'b> {
             pieces.push(format!(".lit({:?})", cur));
         }
         if !ok || argi != rest.len() {
-            self.fc.errors.push(format!("format!({:?}) has a placeholder shape R4 does not cover", s));
+            // a placeholder R4 does not model ({:x}, {:04}, {:?} ...): the result is an
+            // UNCONSTRAINED string (nothing can be proved about it); explicit args are evaluated
+            self.fc.degraded.push(format!("unit {}: format!({:?}) is treated as an unconstrained string", self.outer_name, s));
+            if rest.is_empty() {
+                self.fc.edit(whole.0, whole.1, "opaque_msg!()", "R4.opaque_value");
+            } else {
+                let first = range_of(rest[0]);
+                let last = range_of(rest[rest.len() - 1]);
+                self.fc.edit(whole.0, first.0, "opaque_msg!(", "R4.opaque_value");
+                self.fc.edit(last.1, whole.1, ")", "R4.opaque_value.close");
+                for e in rest {
+                    self.visit_expr(e);
+                }
+            }
             return;
         }
         // the first piece starts the builder (so that no `empty + x` term arises)
@@ -786,7 +806,7 @@ impl<'a, 'b, 'ast> Visit<'ast> for BodyV<'a, 'b> {
             self.fc.edit(r.0, r.1, newname, "R10.iter");
         }
         let key = format!(".{name}");
-        if let Some(m) = self.fc.cfg.eff_method.get(&key).cloned() {
+        if let Some(m) = self.fc.cfg.eff_method.get(&key).cloned().or_else(|| self.fc.extra_eff.get(&key).cloned()) {
             let (mode, qual) = match m.split_once('/') {
                 Some((a, b)) => (a.to_string(), b.to_string()),
                 None => (m.clone(), String::new()),
@@ -864,11 +884,44 @@ impl<'a, 'b, 'ast> Visit<'ast> for BodyV<'a, 'b> {
         visit::visit_expr_while(self, e);
     }
     fn visit_expr_for_loop(&mut self, e: &'ast ExprForLoop) {
-        self.weave_loop(&e.body);
-        visit::visit_expr_for_loop(self, e);
+        // R20: `for PAT in EXPR { BODY }` ->
+        //   { let mut __it = ToIter::to_iter(EXPR); loop <invariant> { let PAT = match __it.next() { Some(x) => x, None => break }; BODY } }
+        // (the desugaring of `for`, over the shim iterator)
+        self.loop_no += 1;
+        let n = self.loop_no;
+        let inv = self.unit.as_ref().and_then(|u| u.loops.get(&n)).cloned();
+        if inv.is_some() {
+            self.used_loops.insert(n);
+        }
+        let whole = range_of(e);
+        let pat_txt = self.fc.text(range_of(&*e.pat)).to_string();
+        let er = range_of(&*e.expr);
+        let open = br(e.body.brace_token.span.open());
+        let close = br(e.body.brace_token.span.close());
+        let it = format!("__it{n}");
+        self.fc.edit(whole.0, er.0, format!("{{ let mut {it} = crate::shims::iter::ToIter::to_iter("), "R20.for");
+        self.fc.edit(er.1, open.1, format!("); loop\n{}\n{{ let {pat_txt} = match {it}.next() {{ Some(__x) => __x, None => break }};", inv.unwrap_or_default()), "R20.for");
+        self.fc.edit(close.0, close.1, "} }", "R20.for");
+        self.visit_expr(&e.expr);
+        for st in &e.body.stmts {
+            self.visit_stmt(st);
+        }
     }
 
     fn visit_expr_unsafe(&mut self, e: &'ast ExprUnsafe) {
+        // R9': `unsafe { E }` where E contains no other statements: the keyword is dropped and the
+        // unsafe callee (libc / memmap2 ...) is a shim with an ASSUMED contract.  Any other
+        // unsafe block makes the unit non-extractable.
+        if e.block.stmts.len() == 1 {
+            if let Stmt::Expr(inner, None) = &e.block.stmts[0] {
+                let whole = range_of(e);
+                let ir = range_of(inner);
+                self.fc.edit(whole.0, ir.0, "(", "R9.unsafe_call");
+                self.fc.edit(ir.1, whole.1, ")", "R9.unsafe_call");
+                self.visit_expr(inner);
+                return;
+            }
+        }
         self.fc.errors.push(format!("unit {} contains an unsafe block (R9: not extractable)", self.outer_name));
         visit::visit_expr_unsafe(self, e);
     }
@@ -1426,6 +1479,34 @@ fn process_fn(
 struct IdentScan<'o> {
     out: &'o mut HashSet<String>,
 }
+/// names used as method calls inside an item
+struct MethodScan<'o> {
+    out: &'o mut HashSet<String>,
+}
+impl<'o, 'ast> Visit<'ast> for MethodScan<'o> {
+    fn visit_expr_method_call(&mut self, e: &'ast ExprMethodCall) {
+        self.out.insert(e.method.to_string());
+        visit::visit_expr_method_call(self, e);
+    }
+    fn visit_macro(&mut self, m: &'ast Macro) {
+        if let Ok(args) = m.parse_body_with(Punctuated::<Expr, Token![,]>::parse_terminated) {
+            for a in args.iter() {
+                self.visit_expr(a);
+            }
+        }
+    }
+}
+fn token_idents(ts: TokenStream, out: &mut HashSet<String>) {
+    for tt in ts {
+        match tt {
+            TokenTree::Ident(i) => {
+                out.insert(i.to_string());
+            }
+            TokenTree::Group(g) => token_idents(g.stream(), out),
+            _ => {}
+        }
+    }
+}
 impl<'o, 'ast> Visit<'ast> for IdentScan<'o> {
     fn visit_path(&mut self, p: &'ast Path) {
         if p.leading_colon.is_none() && p.segments.len() == 1 {
@@ -1438,6 +1519,9 @@ impl<'o, 'ast> Visit<'ast> for IdentScan<'o> {
             for a in args.iter() {
                 self.visit_expr(a);
             }
+        } else {
+            // e.g. matches!(x, PAT if GUARD): not a list of expressions — take every identifier
+            token_idents(m.tokens.clone(), self.out);
         }
     }
 }
@@ -1700,6 +1784,56 @@ fn main() {
                 extra_eff.insert(n.clone(), modes[n].clone());
                 units.insert(format!("fn:{n}"), u);
             }
+            // methods: an inherent method that a listed unit calls by name, in an impl block of
+            // this file, which the contracts do not list
+            let mut called: HashSet<String> = HashSet::new();
+            for item in &file.items {
+                match item {
+                    Item::Fn(f) => {
+                        if units.get(&format!("fn:{}", f.sig.ident)).map(|u| !u.drop_body).unwrap_or(false) {
+                            MethodScan { out: &mut called }.visit_item_fn(f);
+                        }
+                    }
+                    Item::Impl(im) => {
+                        let key = impl_key(im);
+                        for ii in &im.items {
+                            if let ImplItem::Fn(m) = ii {
+                                if units.get(&format!("impl:{}/{}", key, m.sig.ident)).map(|u| !u.drop_body).unwrap_or(false) {
+                                    MethodScan { out: &mut called }.visit_impl_item_fn(m);
+                                }
+                            }
+                        }
+                    }
+                    _ => {}
+                }
+            }
+            for item in &file.items {
+                if let Item::Impl(im) = item {
+                    if im.trait_.is_some() || !cfg.env.attrs_on(&im.attrs).unwrap_or(false) {
+                        continue;
+                    }
+                    let key = impl_key(im);
+                    for ii in &im.items {
+                        if let ImplItem::Fn(m) = ii {
+                            let n = m.sig.ident.to_string();
+                            let at = format!("impl:{}/{}", key, n);
+                            let has_self = matches!(m.sig.inputs.first(), Some(FnArg::Receiver(_)));
+                            if has_self && called.contains(&n) && !units.contains_key(&at) && cfg.env.attrs_on(&m.attrs).unwrap_or(false)
+                                && !cfg.eff_method.contains_key(&format!(".{n}")) {
+                                let mut sc = EffScan { cfg: &cfg, auto_modes: &modes, mode: 0 };
+                                sc.visit_block(&m.block);
+                                let md = match sc.mode { 2 => "mut", 1 => "ro", _ => "none" };
+                                let mut u = UnitCfg::default();
+                                u.id = format!("auto:{}:{}::{}", fname, key, n);
+                                u.world = md.to_string();
+                                extra_eff.insert(format!(".{n}"), md.to_string());
+                                units.insert(at, u);
+                                auto_names.push(format!("{key}::{n}"));
+                            }
+                        }
+                    }
+                }
+            }
         }
         let mut keep_items = keep_items;
         for n in &auto_items {
@@ -1726,7 +1860,7 @@ fn main() {
                 }
             }
         }
-        let mut fc = FileCtx { cfg: &cfg, src: &src, edits: vec![], rule_counts: BTreeMap::new(), errors: vec![], warnings: vec![], degraded: vec![], extra_eff: extra_eff.clone(), fname: fname.clone() };
+        let mut fc = FileCtx { cfg: &cfg, src: &src, edits: vec![], rule_counts: BTreeMap::new(), errors: vec![], warnings: vec![], degraded: vec![], extra_eff: extra_eff.clone(), fname: fname.clone(), ro_violations: vec![] };
         // segments to keep: (start, end, kind, name)
         let mut segs: Vec<(usize, usize, String, String)> = vec![];
         let mut found_units: HashSet<String> = HashSet::new();
@@ -2070,7 +2204,7 @@ fn main() {
         out_files.insert(
             fname.clone(),
             json!({ "segments": rendered, "dropped": dropped, "warnings": fc.warnings, "degraded": fc.degraded,
-                    "auto_units": auto_names, "auto_items": auto_items }),
+                    "auto_units": auto_names, "auto_items": auto_items, "ro_violations": fc.ro_violations }),
         );
     }
     let out = json!({ "files": out_files, "errors": all_errors, "rule_counts": total_rules });
